@@ -2,6 +2,7 @@
 //! generic tree code needs no where-clause gymnastics.
 
 use dasp_frame::Frame;
+use dasp_sample::types::{I24, U24, U48};
 use dasp_sample::Sample;
 use std::fmt::Debug;
 
@@ -153,3 +154,7 @@ ad_frame!("u8", u8, u8);
 ad_frame!("i64", i64, i64);
 ad_frame!("[i32;2]", [i32; 2], i32);
 ad_frame!("[f64;2]", [f64; 2], f64);
+ad_frame!("[I24;2]", [I24; 2], I24);
+ad_frame!("[U48;2]", [U48; 2], U48);
+ad_frame!("[U24;3]", [U24; 3], U24);
+ad_frame!("[i8;4]", [i8; 4], i8);
